@@ -25,7 +25,7 @@ MANIFEST = {
 
 PROPS = "Props/C37.v"
 STATE = ["time", "qpos", "qvel", "act", "history", "qacc_warmstart", "ctrl", "qfrc_applied", "xfrc_applied", "eq_active", "mocap_pos", "mocap_quat", "userdata"]
-OUT = ["qpos", "qvel", "act", "time", "qacc_warmstart", "history", "sensordata", "qacc", "qacc_smooth"]
+OUT = ["qpos", "qvel", "act", "time", "qacc_warmstart", "history", "sensordata", "qacc", "qacc_smooth", "qLD", "qLDiagInv"]
 # Tolerance.  The fused factor_solve_i kernel and factor_m;solve_m are two backward-stable Cholesky solves of the same
 # system; they are NOT bit-identical on the real code (the fused kernel keeps the factor in registers): measured
 # |x1-x2|/max|x| <= 5e-7 (4 float32 ulps) on the random models.  Their difference is bounded by c*cond(M)*2^-24, so
@@ -60,19 +60,37 @@ def _config(k):
   return integ, jac, solver
 
 
+VARIANTS = ["plain", "cg_low_iter", "njmax0_noeulerdamp"]
+
+
 def make_case(k, equality=None):
+  """Random model k.  Every second model has fixed + spatial tendons with armature > 0 (so that d.M has writers other
+  than crb); variants: CG with an iteration budget of 2 and frequent active limits, and njmax=0 (qacc := qacc_smooth)
+  with eulerdamp disabled, which carry an inconsistent factorisation through to qvel/qpos."""
   import mujoco
 
   import models
 
   rng = np.random.default_rng(vlib.seed() + 3700 + k)
   integ, jac, solver = _config(k)
+  variant = VARIANTS[(k // 2) % 3] if k % 2 == 1 else "plain"
   eq = int(rng.integers(0, 2)) if equality is None else equality
+  opt = f'integrator="{integ}" jacobian="{jac}" solver="{solver}"'
+  if variant == "cg_low_iter":
+    opt = f'integrator="{integ}" jacobian="{jac}" solver="CG" iterations="2"'
+  tend = k % 2 == 1
   o = models.Opts(
-    nbody=(2, 6), plane=True, contacts=True, actuators=int(rng.integers(0, 4)), equality=eq, limits=0.3,
-    option=f'integrator="{integ}" jacobian="{jac}" solver="{solver}"',
+    nbody=(3, 6) if tend else (2, 6), plane=True, contacts=True, actuators=int(rng.integers(0, 4)), equality=eq,
+    limits=0.8 if variant == "cg_low_iter" else 0.3, tendons=2 if tend else 0, sites=1.0 if tend else 0.5,
+    joint_types=("hinge", "slide", "hinge", "ball") if tend else ("hinge", "slide", "ball", "free"), option=opt,
   )  # fmt: skip
   xml, info = models.random_model(rng, o)
+  if tend:
+    for t in info.get("tendons", []):
+      tag = "spatial" if t == "ts" else "fixed"
+      xml = xml.replace(f'<{tag} name="{t}"', f'<{tag} name="{t}" armature="{rng.uniform(0.05, 0.5):.3g}"')
+  if variant == "njmax0_noeulerdamp":
+    xml = xml.replace("<mujoco>", '<mujoco><option><flag eulerdamp="disable"/></option>', 1)
   # sensors of the three stages (position / velocity / acceleration) so that a stage dropped from step1/step2 shows
   sens = ""
   for jn, jt, _b in info["joints"]:
@@ -84,7 +102,15 @@ def make_case(k, equality=None):
   m = mujoco.MjModel.from_xml_string(xml)
   d = mujoco.MjData(m)
   models.random_state(rng, m, d, vel_scale=1.0, unnormalized=False)
-  return xml, m, d, (integ, jac, solver)
+  return xml, m, d, (integ, jac, "CG" if variant == "cg_low_iter" else solver, variant, int(m.ntendon), float(np.sum(m.tendon_armature)))
+
+
+def put(m, d, cfg, nworld=2):
+  import mujoco_warp as mjw
+
+  if cfg[3] == "njmax0_noeulerdamp":
+    return mjw.put_data(m, d, nworld=nworld, njmax=0)
+  return mjw.put_data(m, d, nworld=nworld)
 
 
 def has_connect_weld(m):
@@ -93,12 +119,14 @@ def has_connect_weld(m):
   return bool(np.any((m.eq_type == mujoco.mjtEq.mjEQ_CONNECT) | (m.eq_type == mujoco.mjtEq.mjEQ_WELD)))
 
 
-def split_case(mm, m, d, nsteps):
-  """step vs step1;step2 on identical Data copies; returns (list of differing fields, max abs diff)."""
+def split_case(mm, m, d, nsteps, cfg=("", "", "", "plain")):
+  """step vs step1;step2 on identical Data copies; returns (differing fields, max relative diff, Data, qLD check)."""
   import mujoco_warp as mjw
 
-  da = mjw.put_data(m, d, nworld=2)
-  db = mjw.put_data(m, d, nworld=2)
+  from mujoco_warp._src import smooth
+
+  da = put(m, d, cfg)
+  db = put(m, d, cfg)
   bad, worst = [], 0.0
   for s in range(nsteps):
     mjw.step(mm, da)
@@ -113,7 +141,16 @@ def split_case(mm, m, d, nsteps):
           worst = float("inf")
         else:
           worst = max(worst, float(np.nanmax(np.abs(x - y)) / (1e-30 + np.nanmax(np.abs(x)))))
-  return bad, worst, da
+  # the factorisation step1 hands to step2 must be the factorisation of the d.M it leaves (same kernel, same
+  # input: bit-identical on a consistent tree)
+  dc = put(m, d, cfg)
+  mjw.step1(mm, dc)
+  l1, di1 = dc.qLD.numpy().copy(), dc.qLDiagInv.numpy().copy()
+  smooth.factor_m(mm, dc)
+  l2, di2 = dc.qLD.numpy(), dc.qLDiagInv.numpy()
+  with np.errstate(invalid="ignore"):
+    qld = max(float(np.nanmax(np.abs(l1 - l2), initial=0.0)), float(np.nanmax(np.abs(di1 - di2), initial=0.0)))
+  return bad, worst, da, qld
 
 
 def fused_case(mm, dd):
@@ -214,27 +251,34 @@ def run(res):
   import mujoco_warp as mjw
 
   quick = res.tier == "quick"
-  res.rule = "oracle cases: distinct random MJCF models (plane contacts, actuators with activation, optional equality, limits) x integrator {Euler, implicitfast, implicit} x jacobian {dense, sparse} x solver {Newton, CG}; each compared (step vs step1;step2 with relative tolerance 1e-4 and bit-identity counted over several steps, fused vs split factor/solve, forward state frame, forward twice); plus directed delayed-sensor models"
+  res.rule = "oracle cases: distinct random MJCF models (plane contacts, actuators with activation, optional equality, limits) x integrator {Euler, implicitfast, implicit} x jacobian {dense, sparse} x solver {Newton, CG}; every second model has fixed and spatial tendons with armature > 0, in the variants plain / CG with 2 iterations and frequent active limits / njmax=0 with eulerdamp disabled; each compared (step vs step1;step2 with relative tolerance 1e-4 and bit-identity counted over several steps, fused vs split factor/solve, forward state frame, forward twice); plus directed delayed-sensor models"
   ok, trs, failing = propkit.prove(res, PROPS, gen_names=["Skel_pipeline"])
   sk = trs.get("Skel_pipeline")
   if sk is not None:
     errs = [e for f in sk.prog.values() for e in f.get("errors", [])]
     res.assumptions.append("extractor: launches with an unresolved inputs/outputs list (footprint hole, convex narrowphase contact writers): " + ("; ".join(errs) or "none"))
 
-  nmodels = 12 if quick else 120
+  nmodels = 18 if quick else 120
   nsteps = 4 if quick else 12
   found = False
   split_bad, fused_bad, fused_worst, split_inexact, split_worst = [], [], 0.0, 0, 0.0
   for k in range(nmodels):
     xml, m, d, cfg = make_case(k)
     mm = mjw.put_model(m)
-    bad, worst, da = split_case(mm, m, d, nsteps)
+    bad, worst, da, qld = split_case(mm, m, d, nsteps, cfg)
     res.count()
     if np.all(np.isfinite(da.qpos.numpy())):
       res.nontrivial(("split", xml))
     if bad:
       split_inexact += 1
       split_worst = max(split_worst, worst)
+    if qld > 0.0:
+      found = True
+      res.violation(
+        "C37:split:step1-qLD-not-factorisation-of-M",
+        f"after step1 d.qLD/d.qLDiagInv differ from factor_m of the d.M it leaves (max abs {qld:.3g}): step2's solve_m uses a factorisation of an unfinished inertia matrix",
+        {"case": k, "xml": xml, "config": cfg, "qpos0": d.qpos.tolist(), "qvel0": d.qvel.tolist(), "nsteps": nsteps, "qLD_max_abs_diff": qld},
+      )
     if bad and worst > TOL:
       split_bad.append({"case": k, "xml": xml, "config": cfg, "fields": bad[:8], "max_abs_diff": worst, "qpos0": d.qpos.tolist(), "qvel0": d.qvel.tolist(), "nsteps": nsteps})
     # the semantic hypothesis of the theorem (fused == factor then solve), measured
@@ -301,7 +345,10 @@ def run(res):
         h,
       )
       break
-  if not ok and not found:
+  # a broken proof needs a NEW failing input: inputs of findings already recorded in known_findings.json do not count
+  known = {f["key"] for f in vlib.load_known().get("findings", []) if f.get("property") == "C37"}
+  new_input = any(v["found_input"] and v["key"] not in known for v in res.violations)
+  if not ok and not new_input:
     propkit.broken_proof_violation(res, "C37 theorems over the regenerated host program", failing)
   res.assumptions += [
     "kernels are uninterpreted: the theorem is over every interpretation that respects the wp.launch inputs/outputs lists extracted from the source; field names are text (aliasing through slices/locals is guarded only for the events the factorisation is moved across)",
@@ -331,8 +378,9 @@ def replay(res, path):
   d.qpos[:] = r["qpos0"]
   d.qvel[:] = r["qvel0"]
   mm = mjw.put_model(m)
-  bad, worst, da = split_case(mm, m, d, r.get("nsteps", r.get("steps_before", 4)))
-  print("step vs step1;step2 differing fields:", bad, "max abs", worst)
+  cfg = tuple(r.get("config", ("", "", "", "plain")))
+  bad, worst, da, qld = split_case(mm, m, d, r.get("nsteps", r.get("steps_before", 4)), cfg if len(cfg) > 3 else ("", "", "", "plain"))
+  print("step vs step1;step2 differing fields:", bad, "max relative", worst, "| qLD after step1 vs factor_m(d.M):", qld)
   print("fused vs split:", fused_case(mm, da))
   print("forward state changed / forward twice differs:", forward_case(mm, da))
   return 0
